@@ -13,12 +13,29 @@ SWEEPS = [('mps.MPS.orthonormalize', 3), ('mpo.MPO.orthonormalize', 4)]
 
 
 def mode_branches(fi, param='mode'):
+    """statements of the branch for each value of `mode`.  Two layouts: `if mode == 'left': ... if mode == 'right': ...
+    raise`, or a guard clause `if mode not in ('left', 'right'): raise` followed by `if mode == X: ... return` and the
+    other branch un-indented"""
     out = {}
-    for s in fi.node.body:
+    body = fi.node.body
+    for s in body:
         if isinstance(s, ast.If) and isinstance(s.test, ast.Compare) and norm(s.test.left) == param and \
                 len(s.test.ops) == 1 and isinstance(s.test.ops[0], ast.Eq) and \
                 isinstance(s.test.comparators[0], ast.Constant):
             out[s.test.comparators[0].value] = s.body
+    guard = [s for s in body if isinstance(s, ast.If) and isinstance(s.test, ast.Compare) and norm(s.test.left) == param and
+             len(s.test.ops) == 1 and isinstance(s.test.ops[0], ast.NotIn) and s.body and isinstance(s.body[-1], ast.Raise)
+             and not s.orelse]
+    if len(out) == 1 and len(guard) == 1 and isinstance(guard[0].test.comparators[0], (ast.Tuple, ast.List, ast.Set)):
+        allowed = [e.value for e in guard[0].test.comparators[0].elts if isinstance(e, ast.Constant)]
+        (have, stmts), = out.items()
+        others = [m for m in allowed if m != have]
+        first = next(s for s in body if isinstance(s, ast.If) and s.body is stmts)
+        if len(allowed) == 2 and len(others) == 1 and stmts and isinstance(stmts[-1], ast.Return) and \
+                body.index(guard[0]) < body.index(first) and not first.orelse:
+            rest = body[body.index(first) + 1:]
+            if rest:
+                out[others[0]] = rest
     return out
 
 
@@ -29,9 +46,12 @@ def pass_through_rule(chk, repo, rid, fi, br):
     branch_ifs = [s for s in fi.node.body if isinstance(s, ast.If) and any(id(x) in branch_stmts for x in s.body)]
     n = 0
     for s in fi.node.body:
-        if s in branch_ifs or isinstance(s, (ast.Assert, ast.Raise)) or \
+        if s in branch_ifs or isinstance(s, (ast.Assert, ast.Raise)) or id(s) in branch_stmts or \
                 (isinstance(s, ast.Expr) and isinstance(s.value, ast.Constant)):
             continue
+        if isinstance(s, ast.If) and s.body and isinstance(s.body[-1], ast.Raise) and not s.orelse and \
+                not any(isinstance(x, (ast.Return, ast.Assign, ast.AugAssign)) for x in ast.walk(s)):
+            continue            # a guard clause that only raises
         guard = isinstance(s, ast.If) and norm(s.test) in ('len(self.A) == 0', 'self.nsites == 0', 'not self.A') and \
             len(s.body) == 1 and isinstance(s.body[0], ast.Return) and not s.orelse
         if guard:
@@ -162,8 +182,10 @@ def run(chk, repo, tier):
         n3 += 1
         # any other mode raises
         last = fi.node.body[-1]
+        guard_first = any(isinstance(s_, ast.If) and isinstance(s_.test, ast.Compare) and isinstance(s_.test.ops[0], ast.NotIn)
+                          and s_.body and isinstance(s_.body[-1], ast.Raise) for s_ in fi.node.body)
         chk.ob('C01.R2', where(repo, fi, last), f'{fi.name}: an unknown mode raises instead of returning silently',
-               isinstance(last, ast.Raise), norm(last)[:60], key=f'C01.R2|{q}|else-raises')
+               isinstance(last, ast.Raise) or guard_first, norm(last)[:60], key=f'C01.R2|{q}|else-raises')
     from . import support
     support.block_rules(chk, repo, 'C01.R4', ('qr',))
     chk.floor('C01.R2', n2, 60)
